@@ -69,6 +69,8 @@ type Case struct {
 	// DC != nil: a case of the group-map machine (harness/dconc: workers vs maintenance vs flushes), evaluated by
 	// AM.Run.DConcRun
 	DC *dconc.DCase `json:"dcase,omitempty"`
+	// Batch != nil: a batch case (batch_test.go): several alerts per Put / POST with a provider at its per-alertname limit
+	Batch *BatchCase `json:"batch,omitempty"`
 	// Stat != nil: not a schedule but a run of a statistical engine (stat_test.go) with these parameters
 	Stat *StatParams `json:"stat,omitempty"`
 	// observed
@@ -660,6 +662,10 @@ func TestCheck(t *testing.T) {
 	var dcs []dconc.DCase
 	for i := range cases {
 		c := &cases[i]
+		if c.Batch != nil {
+			batchPart(t, env, run, c.Batch)
+			continue
+		}
 		if c.DC != nil {
 			dcs = append(dcs, *c.DC)
 			run.Add(coqCase(&Case{W: 1}), c, false)
@@ -707,6 +713,7 @@ func TestCheck(t *testing.T) {
 	}
 	run.Rep.Distribution["hook_driven_tie"] = hk
 	if env.Replay == "" {
+		batchPart(t, env, run, nil)
 		for _, p := range statPlan(env) {
 			judgeStat(t, run, p)
 		}
